@@ -125,8 +125,16 @@ class MoveImportsToTypeCheckingBlockVisitor(ContextAwareTransformer):
     def _remove_typing_module(import_item_list: List[ImportItem]) -> List[ImportItem]:
         ret: List[ImportItem] = []
         for import_item in import_item_list:
-            if import_item.module_name != "typing":
-                ret.append(import_item)
+            if import_item.module_name == "typing":
+                continue
+            if (
+                import_item.module_name == "mypy_extensions"
+                and import_item.obj_name == "TypedDict"
+            ):
+                # base class of the generated TypedDict classes: needed when
+                # the module is imported, not only by annotations
+                continue
+            ret.append(import_item)
         return ret
 
     def transform_module_impl(
